@@ -10,7 +10,7 @@ import logging
 import time
 
 from xknx.cemi import CEMILData
-from xknx.exceptions import DataSecureError
+from xknx.exceptions import ConversionError, DataSecureError
 from xknx.telegram.address import GroupAddress, IndividualAddress
 from xknx.telegram.apci import APCI, SecureAPDU
 
@@ -215,7 +215,16 @@ class DataSecure:
                 frame_format=cemi_data.flags.frame_format,
                 tpci=cemi_data.tpci,
             )
-        decrypted_payload = APCI.from_knx(plain_apdu_raw)
+        try:
+            decrypted_payload = APCI.from_knx(plain_apdu_raw)
+        except ConversionError as err:
+            # The frame is authentic - its sequence number is used up - but the
+            # secured APDU can not be parsed (or is not supported).
+            # Don't let this escape the receive path.
+            raise DataSecureError(
+                f"Could not parse decrypted APDU {plain_apdu_raw.hex()} from {cemi_data.src_addr}: {err}",
+                log_level=logging.WARNING,
+            ) from err
         _LOGGER.debug("Unpacked APDU %s from %s", decrypted_payload, s_apdu)
 
         plain_cemi_data = copy(cemi_data)
